@@ -23,7 +23,7 @@ def _size(sc):
     return (len(sc["brs"]), sc["N"], sum(len(b["muts"]) for b in sc["brs"]))
 
 
-def check_isolation(sc, exp, found, src_after=None, share=False):
+def check_isolation(sc, exp, found, src_after=None, share=False, nested=False):
     """Run one scenario on the real Split/Zip; exp[b] = pure values branch b yields alone; src_after = the
     flow values as the spec's machine leaves them (the last branch works on the caller's objects).
     share: stateless elements are one object used in every branch, sequences partly nested."""
@@ -33,10 +33,11 @@ def check_isolation(sc, exp, found, src_after=None, share=False):
         key = "%s:%s" % (drv, kind)
         cur = found.get(key)
         if cur is None or _size(sc) < _size(cur["scenario"]):
-            found[key] = dict(extra, scenario=sc, shared_elements=share)
+            found[key] = dict(extra, scenario=sc, shared_elements=share, inside_outer_split=nested)
 
     try:
-        per, values = al.run_scenario(sc["brs"], sc["N"], sc["bs"], sc["drv"], sc["rq"], share=share)
+        per, values = al.run_scenario(sc["brs"], sc["N"], sc["bs"], sc["drv"], sc["rq"], share=share,
+                                      shape=sc.get("shape", "pair"), nested=nested)
     except Exception as exc:      # noqa
         report("raised:" + exc_name(exc), {"exception": repr(exc)[:300]})
         return None
@@ -45,7 +46,7 @@ def check_isolation(sc, exp, found, src_after=None, share=False):
     if src_after is not None:
         for j, v in enumerate(values):
             now = al.pure(v)
-            if now != al.pure(al.flow_value(j + 1)) and now != al.norm_pure(src_after[j]):
+            if now != al.pure(al.flow_value(j + 1, sc.get("shape", "pair"))) and now != al.norm_pure(src_after[j]):
                 report("callers-value-changed", {"index": j, "now": now, "allowed": al.norm_pure(src_after[j])})
                 break
     outs = []
@@ -61,18 +62,46 @@ def check_isolation(sc, exp, found, src_after=None, share=False):
     return outs
 
 
+def iso_actions(recs):
+    """How often every action of Isolation.tla is taken in the exported behaviours (a behaviour is determined by
+    its scenario)."""
+    acts = dict.fromkeys(("ReadBlock", "BranchSrc", "BranchSeq", "BranchFC", "BranchFR", "BlockDone", "Final"), 0)
+    for r in recs:
+        if not r["brs"]:
+            continue
+        n, bs = r["N"], r["bs"]
+        blocks = 0 if n == 0 else (1 if bs == NONE else -(-n // bs))
+        acts["ReadBlock"] += blocks + 1
+        acts["BlockDone"] += blocks
+        acts["Final"] += 1
+        for br in r["brs"]:
+            if br["end"] == "src":
+                acts["BranchSrc"] += 1 if (r["drv"] == "run" and blocks) else 0
+            elif br["end"] == "seq":
+                acts["BranchSeq"] += blocks
+            elif br["end"] in ("store", "count"):
+                acts["BranchFC"] += blocks
+            else:
+                acts["BranchFR"] += blocks
+    return acts
+
+
 def _iso_worker(rec):
     """one exported scenario of Isolation.tla on the real Split / Zip -> (findings, cases)"""
     found, cases = {}, []
     if not rec["brs"]:
         return found, cases
-    sc = {k: rec[k] for k in ("brs", "N", "bs", "drv", "rq")}
+    sc = {k: rec[k] for k in ("brs", "N", "bs", "drv", "rq", "shape")}
     check_isolation(sc, rec["exp"], found, rec["src"], share=False)
     cases.append((rl.case_hash(["isolation", sc]), rec["N"] > 0 and len(rec["brs"]) > 1))
     if len(rec["brs"]) > 1 and rec["N"] > 0:
         # the same with stateless elements shared between the branches and nested sequences
         check_isolation(sc, rec["exp"], found, rec["src"], share=True)
         cases.append((rl.case_hash(["isolation-shared-elements", sc]), True))
+        if rec["drv"] == "fill":
+            # the fill-driven Split filled by an outer Split.run
+            check_isolation(sc, rec["exp"], found, rec["src"], share=False, nested=True)
+            cases.append((rl.case_hash(["isolation-inside-outer-split", sc]), True))
     return (rl.plain(found) if found else found), cases
 
 
@@ -175,7 +204,8 @@ def record_alias(rnd, acc, nops):
 def run(ctx):
     import lena  # noqa
     tag = "thorough" if ctx.thorough else "quick"
-    ctx.assume("flow values are ([j], context) pairs created per scenario: no pre-existing aliasing")
+    ctx.assume("flow values are created per scenario - ([j], context) pairs, (object, context) pairs, bare user objects "
+               "with attributes and (named) tuples of them: no pre-existing aliasing")
     ctx.assume("branch outputs are tagged by a final harness element so they can be attributed to their branch; "
                "fill/request branches are harness elements (FillRequestSeq.fill is not implemented in lena)")
     ctx.assume("object identity is observed with id() while every object is kept alive by the harness")
@@ -184,18 +214,27 @@ def run(ctx):
     # ---- design level
     cover_a = ("ReadBlock", "BranchSrc", "BranchSeq", "BranchFC", "BranchFR", "BlockDone", "Final")
     cover_b = ("Fill", "Compute", "Mutate")
+    # (TLC's own coverage statistics are not collected for Isolation: the cost model of the nested heap operators
+    # does not fit into memory; the actions taken are counted from the exported behaviours instead)
     if ctx.thorough:
-        ctx.mc("Isolation", "Isolation_thorough.cfg", coverage=True, must_cover=cover_a)
+        ctx.mc("Isolation", "Isolation_thorough.cfg")
         recs_a = ctx.export("Isolation", "Isolation_thorough_export.cfg", min_records=1000)
     else:
         # quick: one TLC run checks the invariants and exports the scenarios
-        recs_a = rl.mc_and_export(ctx, "Isolation", "Isolation_quick.cfg", cover_a, min_records=1000)
+        recs_a = rl.mc_and_export(ctx, "Isolation", "Isolation_quick.cfg", (), min_records=1000, coverage=False,
+                                  workers=ctx.nworkers)
+    for a, n in iso_actions(recs_a).items():
+        ctx.actions[a] = ctx.actions.get(a, 0) + n
+    for a in cover_a:
+        if ctx.actions.get(a, 0) == 0:
+            raise core.MachineryError("vacuous model: action %s of Isolation never taken" % a)
     # sensitivity guards of the models (the quick tier runs one per model: last branch recognised by ==, one
     # copy per call; the others run in the thorough tier)
     guards_a = (("Isolation_nocopy.cfg", "Isolated"), ("Isolation_shallow.cfg", "Isolated"),
+                ("Isolation_varshallow.cfg", "Isolated"), ("Isolation_hashable.cfg", "Isolated"),
                 ("Isolation_eqlast.cfg", "Isolated"))
     guards_b = (("Alias_once.cfg", "Fresh"), ("Alias_nocopy.cfg", "Fresh"), ("Alias_nocopy2.cfg", "MutateIsLocal"))
-    for cfg, prop in (guards_a if ctx.thorough else guards_a[2:]):
+    for cfg, prop in (guards_a if ctx.thorough else guards_a[4:]):
         res = ctx.mc("Isolation", cfg, expect_violation="report")
         if res.violated != prop:
             raise core.MachineryError("the isolation model is insensitive: %s did not refute %s" % (cfg, prop))
@@ -208,8 +247,9 @@ def run(ctx):
         res = ctx.mc("Alias", cfg, expect_violation="report")
         if res.violated != prop:
             raise core.MachineryError("the alias model is insensitive: %s did not refute %s" % (cfg, prop))
-    ctx.extra["sensitivity"] = ["Isolation with CopyMode none/shallow, or the last branch recognised by == : "
-                                "TLC refutes Isolated",
+    ctx.extra["sensitivity"] = ["Isolation with CopyMode none/shallow, the last branch recognised by ==, hashable "
+                                "values passed uncopied by the fill-driven Split, or a Variable that copies its "
+                                "var_context shallowly: TLC refutes Isolated",
                                 "Alias with CopyOnCompute = none: TLC refutes Fresh and MutateIsLocal; "
                                 "with one copy per call shared by its results: TLC refutes Fresh"]
     # ---- A, spec -> code
@@ -228,7 +268,7 @@ def run(ctx):
         sc = al.rand_scenario(rnd)
         try:
             per, _values = al.run_scenario(sc["brs"], sc["N"], sc["bs"], sc["drv"], sc["rq"],
-                                           share=rnd.random() < 0.5)
+                                           share=rnd.random() < 0.5, shape=sc["shape"])
         except Exception as exc:     # noqa
             key = "%s:raised:%s" % (DRIVER[sc["drv"]], exc_name(exc))
             if key not in found or _size(sc) < _size(found[key]["scenario"]):
@@ -324,8 +364,11 @@ def run(ctx):
         pending = [part for part in pending if part[0]["acc"] != bad["acc"]]
     return ctx.finish(
         rule="A (S2C): every scenario of the bounded Isolation model (branch lists over 13 templates of mutating "
-             "branches, incl. repeated structurally equal branches in first/middle/last position, x flows x bufsizes x "
-             "run/fill/request/Zip driving, each also with stateless elements shared between branches) executed on the real Split/Zip, every branch "
+             "branches, incl. repeated structurally equal branches in first/middle/last position, over 6 templates with a "
+             "typed Variable (nested var_context) and writes below context.variable, and over 6 data-only templates on "
+             "flows of bare hashable-but-mutable objects / tuples of them, x flows x bufsizes x "
+             "run/fill/request/Zip driving, each also with stateless elements - the same Variable object - shared "
+             "between branches, fill-driven Splits also inside an outer Split.run) executed on the real Split/Zip, every branch "
              "compared with its isolated result when yielded and at the end; (C2S) seeded random configurations "
              "(<= 5 branches, random mutator chains) validated by Trace_Isolation.  B (S2C): every history "
              "fill/compute/mutate of the bounded Alias model replayed on 19 real accumulators (6 of them yielding two results per compute()) with the producer's and the "
